@@ -179,6 +179,9 @@ func genPolicy(r *Rng, kind string, pos int, g *instGen) PolD {
 		if r.Chance(25) {
 			p.MaxDuration = int64(1+r.Intn(6))*2048 + 300
 		}
+		if r.Chance(15) {
+			p.LsnDur = int64(1+r.Intn(5))*1024 + 64 + int64(pos) // a slow OnFailure listener: timers and cancellations land while it runs
+		}
 		return p
 	case "Breaker":
 		return PolD{K: "Breaker", Inst: g.breaker(r)}
@@ -195,6 +198,13 @@ func genPolicy(r *Rng, kind string, pos int, g *instGen) PolD {
 		if p.FBKind == "Error" {
 			e := Pick(r, execErrs)
 			p.FBE = &e
+		}
+		// a slow failure listener / a slow fallback function: cancellations and timeouts land while they run
+		if r.Chance(20) {
+			p.FBLsnDur = int64(1+r.Intn(6))*1024 + 128 + int64(pos)
+		}
+		if (p.FBKind == "Echo" || p.FBKind == "WrapErr") && r.Chance(25) {
+			p.FBDur = int64(1+r.Intn(6))*1024 + 384 + int64(pos)
 		}
 		return p
 	default:
@@ -438,7 +448,7 @@ const execRule = "Observed per execution: returned result and error, end instant
 func TestDrive_C02(t *testing.T) {
 	pf := execProfile{name: "C02", kinds: []string{"Retry"}, maxDepth: 1, mustHave: "Retry", single: true, extPct: 0, coopPct: 0, maxReqs: 3}
 	driveExec(t, "C02", pf, 500, 15000,
-		"a retry policy as the whole stack: maxRetries -1,0..3 through WithMaxRetries or WithMaxAttempts, random handle and abort conditions, ReturnLastFailure on/off, max duration, fixed delays; scripts of 1-6 outcomes; all eight entry points; then retry policies inside random stacks. Non-trivial = the function ran more than once or a failure was handled. "+execRule,
+		"a retry policy as the whole stack: maxRetries -1,0..3 through WithMaxRetries or WithMaxAttempts, random handle and abort conditions, ReturnLastFailure on/off, max duration, fixed delays; scripts of 1-6 outcomes; all eight entry points; then retry policies inside random stacks; nested retry policies whose policy objects another execution goes through while the execution under observation waits out an outer delay. Non-trivial = the function ran more than once or a failure was handled. "+execRule,
 		func(w *CaseWriter, rng *Rng, add func(InstD, []ReqD, string)) {
 			// retry inside / around other policies
 			pf2 := execProfile{name: "C02b", kinds: allKinds, maxDepth: 4, mustHave: "Retry", extPct: 5, coopPct: 30, maxReqs: 3, hedgePct: 20}
@@ -453,6 +463,7 @@ func TestDrive_C02(t *testing.T) {
 				}
 			}
 			abortWhileExhausted(rng, n/5, add)
+			visitedBetweenOuterAttempts(rng, n/4, add)
 		})
 }
 
@@ -466,6 +477,7 @@ func TestDrive_C10(t *testing.T) {
 				n = 1000
 			}
 			cancelledHandledResult(rng, n, false, add)
+			slowFallbackCancelled(rng, n, add)
 		})
 }
 
@@ -567,6 +579,123 @@ func cancelledHandledResult(rng *Rng, n int, withRetry bool, add func(InstD, []R
 			continue // Run* entry points discard the result: nothing for a result condition to handle
 		}
 		add(InstD{}, []ReqD{rq}, "cancelled-handled-result")
+	}
+}
+
+// a slow fallback: the policy's own OnFailure listener and / or the fallback function take time, and the execution is cancelled
+// (caller's context, its deadline, async Cancel(), or an enclosing Timeout) while one of them runs.  Cancelled during the
+// listener: the fallback function must not be entered; cancelled during the function: its output is dropped and the
+// cancellation is what the execution reports.
+func slowFallbackCancelled(rng *Rng, n int, add func(InstD, []ReqD, string)) {
+	for i := 0; i < n; i++ {
+		fb := PolD{K: "Fallback", FBKind: Pick(rng, []string{"Echo", "WrapErr"}), FBR: int64(1 + rng.Intn(3))}
+		switch rng.Intn(3) {
+		case 0:
+			fb.FBLsnDur = int64(2+rng.Intn(4)) * 1024
+		case 1:
+			fb.FBDur = int64(2+rng.Intn(4)) * 1024
+		default:
+			fb.FBLsnDur, fb.FBDur = int64(2+rng.Intn(4))*1024, int64(2+rng.Intn(4))*1024
+		}
+		stack := []PolD{fb}
+		retries := int64(0)
+		if rng.Chance(60) {
+			retries = int64(rng.Intn(2))
+			stack = append(stack, PolD{K: "Retry", MaxRetries: retries})
+		}
+		d0 := Pick(rng, []int64{0, 512})
+		t0 := (retries + 1) * d0
+		// the instant: inside the listener, or inside the function
+		var at int64
+		if fb.FBDur == 0 || (fb.FBLsnDur != 0 && rng.Bool()) {
+			at = t0 + 1 + rng.I64n(fb.FBLsnDur-1)
+		} else {
+			at = t0 + fb.FBLsnDur + 1 + rng.I64n(fb.FBDur-1)
+		}
+		rq := ReqD{Stack: stack, CtxKey: -1, Entry: Pick(rng, append(append([]string{}, execEntries...), plainEntries...)),
+			Script: []FnStepD{{Out: OutD{Err: &ErrD{K: "Sent", A: 0}}, Dur: d0}}}
+		switch rng.Intn(5) {
+		case 0:
+			rq.Stack = append([]PolD{{K: "Timeout", Limit: at}}, rq.Stack...)
+		case 1:
+			rq.ExtT, rq.ExtKind = at, "Deadline"
+		case 2:
+			rq.ExtT, rq.ExtKind = at, "Cancel"
+		default:
+			rq.ExtT, rq.ExtKind = at, "AsyncCancel"
+			rq.Entry = Pick(rng, []string{"GetAsync", "RunAsync", "GetWithExecutionAsync", "RunWithExecutionAsync"})
+		}
+		add(InstD{}, []ReqD{rq}, "slow-fallback-cancelled")
+	}
+}
+
+// nested retry policies visited between two outer attempts: outer(inner(fn)) where the outer policy only handles the error the
+// visited execution fails with; while the visited execution waits out an outer delay, another execution goes through the same
+// two policy objects -- succeeding at once (it must not refill the inner policy's budget of the visited execution) or failing
+// with an error only the inner policy handles, until the inner policy gives up (it must not use that budget up either).
+func visitedBetweenOuterAttempts(rng *Rng, n int, add func(InstD, []ReqD, string)) {
+	for i := 0; i < n; i++ {
+		d := int64(2+rng.Intn(6)) * 2048
+		outer := PolD{K: "Retry", Handle: []CallD{{K: "Errors", Errs: []ErrD{{K: "Sent", A: 0}}}}, MaxRetries: int64(1 + rng.Intn(3)), Delay: d}
+		inner := PolD{K: "Retry", MaxRetries: int64(1 + rng.Intn(3)), ReturnLast: rng.Chance(30)}
+		stack := []PolD{outer, inner}
+		if rng.Chance(25) {
+			stack = []PolD{outer, {K: "Fallback", Handle: []CallD{{K: "Result", R: 99}}, FBKind: "Result", FBR: 1}, inner}
+		}
+		rq := ReqD{Stack: stack, CtxKey: -1, Entry: Pick(rng, append(append([]string{}, execEntries...), plainEntries...)),
+			Script: []FnStepD{{Out: OutD{Err: &ErrD{K: "Sent", A: 0}}}}}
+		if rng.Chance(40) {
+			// the first outcome is one the inner policy lets through: no inner retry used before the visit
+			rq.Stack[len(rq.Stack)-1].Handle = []CallD{{K: "Errors", Errs: []ErrD{{K: "Sent", A: 0}, {K: "Sent", A: 1}}}}
+			rq.Stack[0].Handle = []CallD{{K: "Errors", Errs: []ErrD{{K: "Sent", A: 0}, {K: "Sent", A: 2}}}}
+			rq.Script = []FnStepD{{Out: OutD{Err: &ErrD{K: "Sent", A: 2}}}, {Out: OutD{Err: &ErrD{K: "Sent", A: 0}}}}
+		}
+		rq.VisT = int64(rng.Intn(int(outer.MaxRetries)))*d + 1 + rng.I64n(d-1)
+		if rng.Bool() {
+			rq.VisOut = OutD{R: 1}
+		} else {
+			rq.VisOut = OutD{Err: &ErrD{K: "Sent", A: 1}}
+		}
+		add(InstD{}, []ReqD{rq}, "visited-between-outer-attempts")
+	}
+}
+
+// a slow OnFailure listener of a retry policy, and the execution is cancelled while it runs (caller's context, its deadline, async
+// Cancel(), an enclosing Timeout): the cancellation arrives between the retry loop's look at it and the recording of the
+// attempt's result.  The execution reports the cancellation, starts no further attempt, and everything that looks at the
+// execution afterwards (enclosing policies, completion listeners, a second execution on the same policies) still gets through.
+func slowRetryListenerCancelled(rng *Rng, n int, add func(InstD, []ReqD, string)) {
+	for i := 0; i < n; i++ {
+		l := int64(2+rng.Intn(4)) * 1024
+		rp := PolD{K: "Retry", MaxRetries: int64(1 + rng.Intn(2)), LsnDur: l, Delay: Pick(rng, []int64{0, 2048})}
+		stack := []PolD{rp}
+		switch rng.Intn(4) {
+		case 0:
+			stack = []PolD{{K: "Fallback", FBKind: "WrapErr"}, rp}
+		case 1:
+			stack = []PolD{{K: "Retry", MaxRetries: 1, Handle: []CallD{{K: "Errors", Errs: []ErrD{{K: "Sent", A: 5}}}}}, rp}
+		}
+		d0 := Pick(rng, []int64{0, 512})
+		at := d0 + 1 + rng.I64n(l-1)
+		rq := ReqD{Stack: stack, CtxKey: -1, Entry: Pick(rng, append(append([]string{}, execEntries...), plainEntries...)),
+			Script: []FnStepD{{Out: OutD{Err: &ErrD{K: "Sent", A: 0}}, Dur: d0}}}
+		switch rng.Intn(5) {
+		case 0, 1:
+			rq.Stack = append([]PolD{{K: "Timeout", Limit: at}}, rq.Stack...)
+		case 2:
+			rq.ExtT, rq.ExtKind = at, "Deadline"
+		case 3:
+			rq.ExtT, rq.ExtKind = at, "Cancel"
+		default:
+			rq.ExtT, rq.ExtKind = at, "AsyncCancel"
+			rq.Entry = Pick(rng, []string{"GetAsync", "RunAsync", "GetWithExecutionAsync", "RunWithExecutionAsync"})
+		}
+		reqs := []ReqD{rq}
+		if rng.Bool() {
+			// the same policies again, undisturbed
+			reqs = append(reqs, ReqD{Stack: rq.Stack, CtxKey: -1, Entry: rq.Entry, Gap: 4096, Script: []FnStepD{{Out: OutD{R: 0}, Dur: 256}}})
+		}
+		add(InstD{}, reqs, "slow-retry-listener-cancelled")
 	}
 }
 
@@ -709,6 +838,7 @@ func aroundLimits(r *Rng, reqs []ReqD) {
 
 func TestDrive_C07(t *testing.T) {
 	driveC07Race(t)
+	driveC07Hedged(t)
 	pf := execProfile{name: "C07", kinds: []string{"Timeout", "Timeout", "Retry", "Fallback", "Bulkhead", "Limiter", "Breaker"}, hedgePct: 20, maxDepth: 4, mustHave: "Timeout", extPct: 0, coopPct: 50, maxReqs: 2, withExec: true}
 	driveExec(t, "C07", pf, 0, 0,
 		"stacks containing at least one Timeout (limits 1.5-8.5 us with distinct residues) alone and relative to retry, fallback, bulkhead, rate limiter and breaker, including nested timeouts; function durations placed at 0, limit/2, limit-1ns, limit+1ns, 2*limit, 3*limit+7 for cooperative (return on cancellation) and non-cooperative functions; plus retries around a Timeout where an earlier attempt timed out and the caller cancels in the middle of a later attempt; plus executions whose caller's context is already cancelled (or past its deadline) when they start; plus Timeouts with a zero or negative limit. Non-trivial = a timeout fired or a failure was handled. "+execRule,
@@ -870,6 +1000,8 @@ func TestDrive_C08(t *testing.T) {
 				n = 4000
 			}
 			cancelledHandledResult(rng, n/5, true, add)
+			slowFallbackCancelled(rng, n/4, add)
+			slowRetryListenerCancelled(rng, n/4, add)
 			preCancelled(rng, n/5, false, add)
 			hedgeWinsThenCancelInDelay(rng, n/4, add)
 			// a waiting policy OUTSIDE the retry policy, cancelled in the middle of its wait
